@@ -3,4 +3,10 @@ import Lace.Basic.Machine
 import Lace.Basic.Fmt
 import Lace.Spec.ISA
 import Lace.Model.VM
+import Lace.Model.Text
+import Lace.Model.Symbol
+import Lace.Model.Lexer
+import Lace.Model.Air
+import Lace.Model.Parser
+import Lace.Model.Assemble
 import Lace.Props.C02
